@@ -104,7 +104,7 @@ def run(ctx):
         if not (out.startswith("raised") or out.startswith("returned")):
             viol.append(dict(case, kind="hang", detail=f"the caller did not get control back within the deadline: {out}"))
     # (2) scripted queue: the marker of a worker is withheld and the worker reported dead; model must agree
-    n = 30 if ctx["tier"] == "quick" else 600
+    n = 30 * nv.boost("mp") if ctx["tier"] == "quick" else 600
     done = 0
     while done < n:
         prob, theme = ce.gen_problem(rng)
